@@ -6,7 +6,8 @@ EXPLANATION = ("Discovery of the containers that hold the declared model (by the
                "drains each with exactly one whole-list loop sending every element once with the method of its kind, for every owner; sense "
                "dispatch of both back-ends against the literal set Constraint accepts; comparison operators of Expression by normal form; dense and "
                "sparse translators interpreted abstractly over (key kind, mirrored key present, index order); LMI encodings; objective sense; nothing "
-               "accumulates across solves; MOSEK matrix-variable indices derive from send order.")
+               "accumulates across solves; MOSEK matrix-variable indices derive from send order."
+               ' Also: every declaration method stores what it is given exactly once on every path; declare_* build a new object at every call; the LMI constructor converts entries per kind on a copy; MOSEK rows carry exactly the sparse translation; main variables are sized by the leaf counters.')
 TRUSTED = ["CPython ast", "MOSEK: sparse symmetric matrices are lower-triangular with off-diagonal entries counted twice; bar-variables are numbered in append order",
            "cvxpy: sum(multiply(G, W)) is the Frobenius inner product"]
 ASSUMPTIONS = ["numeric equality of dense and sparse data on concrete expressions is not executed; it follows from the per-kind rules"]
